@@ -187,13 +187,14 @@ PROPS["C12"] = {
     "theorems": [
         "GstProofs.C12.pairs", "GstProofs.C12.innerLoop_all", "GstProofs.C12.translate_invariant",
         "GstProofs.C12.var_symm", "GstProofs.C12.subL_comm_sq", "GstProofs.C12.lag_sound", "GstProofs.C12.lag_complete",
+        "GstProofs.C12.lag_breaks_sound", "GstProofs.C12.lag_breaks_complete", "GstProofs.C12.lag_breaks_outside",
     ],
     "harnesses": ["vh_c12"],
     "level": "proof",
     "technique": "Lean 4 declarative pairwise definition of the experimental (cross-)variogram decided exactly on squared quantities + transcription of the pair loop proved to enumerate every pair once; symmetry and translation invariance as theorems; exact/2^-36 differential correspondence with Vario::computeFromDb on generated data sets and direction specifications",
     "level_text": "Partial proof: pair enumeration of the general algorithm, the exact characterisation of the lag assigned to a pair, symmetry in the variables and translation invariance are theorems; the numbers of pairs (weights), mean distances and variogram values of the library are compared with the pairwise definition evaluated in exact rational arithmetic for each lag (pair weights exactly; values to 2^-36). The VARIOGRAM and ORDER4 estimators of the general (non-grid) algorithm are covered.",
     "level_note": "Trusted: Lean kernel + 3 standard axioms; sqrt enters only the comparison of the mean distance (rational Newton enclosure), never a pair/lag decision; configurations with a lag / cone / cylinder decision within 2^-30 of its boundary are skipped and counted; Db::getWeight semantics (undefined weight = 1) is followed.",
-    "rule": "random data sets (1-3D, 3-30 samples on dyadic lattices: regular, random, clustered; 1-3 variables with undefined cells; optional weights and selection), one direction with 2-8 lags of step odd/16, distance tolerance in {1/2,1/4,3/8}, angular tolerance in {90,70,50,35,20} degrees, lattice direction vectors, optional bench / cylinder; every (ivar,jvar) pair. distinct = distinct request line; trivial = fewer than 3 active samples",
+    "rule": "random data sets (1-3D, 3-30 samples on dyadic lattices: regular, random, clustered; 1-3 variables with undefined cells; optional weights and selection), one direction with 2-8 lags of step odd/16 (a quarter of the configurations: irregular classes given by breaks, first break 0 or positive, sometimes a duplicated location), distance tolerance in {1/2,1/4,3/8}, angular tolerance in {90,70,50,35,20} degrees, lattice direction vectors, optional bench / cylinder; every (ivar,jvar) pair. distinct = distinct request line; trivial = fewer than 3 active samples",
     "trivial": lambda line: False,
     "trusted_base": TB_COMMON,
     "uncovered": ["estimators other than VARIOGRAM and ORDER4 (covariance, covariogram, madogram, rodogram, poisson, general increments)", "grid-specialised algorithm, vmap, vcloud", "irregular lags (breaks), dates, codes", "permutation invariance is exercised through the unsorted input order only"],
@@ -335,7 +336,7 @@ PROPS["C03"] = {
     "technique": "Lean 4 theorems on the closed forms of the polynomial structures (for every reduced distance: |C(h)| <= C(0) = 1, compact support, no jump at the range), evenness of the reduced distance and its invariance under rotations (Mathlib matrices, any dimension); certificate checking for what is not provable in the model: positive semi-definiteness of the library's covariance matrix of generated point sets is decided by an exact rational LDLt, closed forms are compared with the library (rational polynomials exactly, exp through proved-style alternating-series enclosures)",
     "level_text": "Partial proof: boundedness / support / continuity of 8 polynomial structures are theorems for all distances; positive definiteness for ALL point sets (Bochner) is not a theorem here - it is certified per generated instance by exact arithmetic (all structures offered by the factory in 1-3 D, anisotropy + rotation, 1-2 variables with positive semi-definite sills, conditional definiteness on first-order increments for LINEAR / ORDER1_GC / POWER); transcendental structures other than exponential and Gaussian have no closed-form comparison.",
     "level_note": "Trusted: Lean kernel + 3 standard axioms; the LDLt certificate checker (exact rational, soundness = classical Schur-complement argument, not proved in Lean); alternating-series enclosure of exp; structures of order >= 1 (ORDER3_GC, ORDER5_GC, SPLINE_GC, SPLINE2_GC) are not certified.",
-    "rule": "every ECov offered by CovFactory in dimension 1, 2, 3 x 4 (quick) / 60 (thorough) repetitions: 6 closed-form probes along the first axis (unit sill, random range and parameter); one anisotropic rotated 1-2 variable model: 4 symmetry / bound / variogram-form probes and one 4-9 point covariance (or increment) matrix certified PSD with tau = 2^-36 of its scale. distinct = distinct request line",
+    "rule": "every ECov offered by CovFactory in dimension 1, 2, 3 x 4 (quick) / 60 (thorough) repetitions: 6 closed-form probes along the first axis (unit sill, random range and parameter); in 2-3 D one anisotropic rotated unit-sill structure declared in one of five orders (constructor, ranges then angles, angles then ranges, rotation object then ranges, isotropic + angles then other ranges) probed 3 times along each rotated axis against the closed form at the range of that axis; one anisotropic rotated 1-2 variable model: 4 symmetry / bound / variogram-form probes and one 4-9 point covariance (or increment) matrix certified PSD with tau = 2^-36 of its scale. distinct = distinct request line",
     "trivial": lambda line: False,
     "trusted_base": TB_COMMON + ["exact LDLt certificate checker", "rational enclosure of exp"],
     "uncovered": ["positive definiteness for all point sets (only certified instances)", "generalised covariances of order >= 1", "Matern (parameter not 1/2, 3/2, 5/2) / Bessel / Gamma and Cauchy (non-integer exponent) / Stable (exponent not 1, 2) / Storkey / sine cardinal values: no rational closed form in the model", "covariances on the sphere", "non-stationary models"],
